@@ -16,6 +16,9 @@ use regex_automata::{
 
 use crate::leaf::{Leaf, LeafId};
 
+/// Upper bound on the heap used by the NFA all patterns are compiled into (256 MiB)
+const NFA_SIZE_LIMIT: usize = 1 << 28;
+
 mod dfa_util;
 mod export;
 
@@ -399,7 +402,12 @@ impl Graph {
             .map(|leaf| leaf.pattern.hir())
             .collect::<Vec<_>>();
 
-        let nfa_config = NFA::config().shrink(true).utf8(config.utf8_mode);
+        let nfa_config = NFA::config()
+            .shrink(true)
+            .utf8(config.utf8_mode)
+            // Without a limit, counted repetitions like `(a{100000}){100000}` are expanded until
+            // memory runs out. No lexer that can be turned into a DFA comes anywhere near this size.
+            .nfa_size_limit(Some(NFA_SIZE_LIMIT));
         let nfa = NFA::compiler()
             .configure(nfa_config)
             .build_many_from_hir(&hirs)
